@@ -19,6 +19,18 @@ prop("C13", True, "model_checking",
      "Trusted: the 60-line linear-scan reference; 64-bit fingerprints; times outside the alphabet (e.g. -0.0, NaN) are not covered.",
      "DESIGN.md 3/C13", E2)
 
+prop("C12", True, "model_checking",
+     "explicit-state BFS (stateright) over cloned real TimingPointsState x incremental legacy model; exhaustive line sequences through from_str vs batch definition",
+     "Every history of timing-point lines over the alphabet up to the completed depth is fed line by line to the real parse_timing_points on a clone of the real state; after every transition the converted lists are compared with the legacy precedence model, which is itself checked against the batch definition on every enumerated sequence. Single-line field products cover parse limits, defaults and clamps.",
+     "Trusted: the reference line parser and batch definition written from the statement; Debug snapshot of TimingPointsState as complete dedup key (verif hook); values outside the alphabets/menus.",
+     "DESIGN.md 3/C12", E2)
+
+prop("C20", True, "model_checking",
+     "exhaustive parameter-grid enumeration against an eager reference list + explicit-state BFS over tick-buffer histories",
+     "Every grid point (span count x tick ratio x length x velocity x duration x start x clean/dirty buffer) is run through the real iterator and compared event by event with an eager reference built from the statement; the buffer-history model (abandoned iterators included) is searched breadth-first and every consumed prefix compared.",
+     "Trusted: the eager reference (closed forms); 1e-9 relative tolerance on times, exact cut-off where arithmetic is exact; parameters outside the menus.",
+     "DESIGN.md 3/C20", E2)
+
 NOT_BUILT_REASON = "check not built yet in this session (planned, see DESIGN.md section 3); not claimed until it exists"
 
 def main():
